@@ -8,6 +8,7 @@ import NriModel.Lemmas.GenerateMounts
 import NriModel.Lemmas.GenerateEnv
 import NriModel.Lemmas.GenerateFrame
 import NriModel.Lemmas.GenerateRepair
+import NriModel.Lemmas.GenerateCheck
 
 namespace Nri.Generate
 open Nri.Api
